@@ -433,6 +433,22 @@ def pyscalar(x):
     return x
 
 
+def snap_to_nodes(points, nodes, rel=1e-12):
+    """interpolation points that lie within a few ulp of a node - without being it - are moved onto the node: there the fraction
+    of the way to the next node is below the resolution of floating point, and whether it survives depends on the order of the
+    arithmetic (next to a NaN / infinite node that decides between the node's value and NaN / inf); no statement goes that far"""
+    out = []
+    for x in points:
+        y = x
+        if isinstance(x, float) or isinstance(x, int):
+            for l in nodes:
+                if isinstance(l, (int, float)) and l != x and abs(x - l) <= rel * max(1.0, abs(l)):
+                    y = type(x)(l) if float(l) == type(x)(l) else float(l)
+                    break
+        out.append(y)
+    return out
+
+
 def canon_label(l):
     """labels compare by value: 2 == 2.0; returned as hashable python scalars"""
     l = pyscalar(l)
